@@ -46,7 +46,7 @@ def successors(env, state, action, stochastic, outcome_limit=64):
 
 
 def bfs(env, start, is_goal, max_nodes=20000, stochastic=False, actions=None, prune=None, on_state=None,
-        on_transition=None, priority=None, outcome_limit=64):
+        on_transition=None, priority=None, outcome_limit=64, on_error=None):
     """Search the graph of non-terminal states reachable from `start`.
 
     is_goal(state, action, next_state, reward, done) decides the goal on a transition.
@@ -78,7 +78,15 @@ def bfs(env, start, is_goal, max_nodes=20000, stochastic=False, actions=None, pr
         if nodes > max_nodes:
             return 'budget', None, {'nodes': nodes, 'transitions': transitions}
         for a in actions:
-            succ, complete = successors(env, state, a, stochastic, outcome_limit)
+            try:
+                succ, complete = successors(env, state, a, stochastic, outcome_limit)
+            except Exception as e:
+                from .monitor import raised_by_harness
+                if on_error is None or raised_by_harness(e):
+                    raise
+                on_error(state, a, e)  # the real step raised: that transition is unexplored (caller decides what it means)
+                truncated_outcomes = True
+                continue
             truncated_outcomes |= not complete
             for ns, r, d in succ:
                 transitions += 1
